@@ -234,34 +234,64 @@ Definition is_link (n : node) : bool := match nval n with Link _ _ => true | _ =
 Definition c_nested_link : node -> bool :=
   exists_node (fun n => is_link n && existsb (exists_node is_link) (nch n)).
 
-(* class empty_item_blank_line: an item without children in a loose list, or as the last item of a list
-   that has a following sibling *)
+(* ends_empty n, for an item or a list n: following LAST children from n, through items (whose last child
+   must then be a list) and lists, one arrives at an item without children.  cm.rs format_item leaves such an
+   item with cr() only and neither format_list nor the enclosing format_item write anything on the way out,
+   so no blank line separates n from what is written next. *)
 Definition is_list (n : node) : bool := match nval n with NList _ => true | _ => false end.
+Definition is_item_v (v : node_value) : bool := match v with Item _ | TaskItem _ => true | _ => false end.
+Definition is_list_v (v : node_value) : bool := match v with NList _ => true | _ => false end.
 Definition list_tight (n : node) : bool := match nval n with NList l => l_tight l | _ => true end.
 Definition childless (n : node) : bool := match nch n with [] => true | _ => false end.
+Fixpoint ends_empty (n : node) : bool :=
+  match n with
+  | Node v _ ch =>
+    match ch with
+    | [] => is_item_v v
+    | _ :: _ =>
+      (is_item_v v || is_list_v v) &&
+      (fix last (l : list node) : bool :=
+         match l with
+         | [] => false
+         | c :: r => match r with
+                     | [] => (is_list c || negb (is_item_v v)) && ends_empty c
+                     | _ :: _ => last r
+                     end
+         end) ch
+    end
+  end.
+
+(* class empty_item_blank_line: a loose list one of whose items ends in an item without children, or a list
+   that ends in an item without children and has a following sibling *)
 Fixpoint followed_empty_last (l : list node) : bool :=
   match l with
-  | a :: ((_ :: _) as r) =>
-    (is_list a && match rev (nch a) with it :: _ => childless it | [] => false end) || followed_empty_last r
+  | a :: ((_ :: _) as r) => (is_list a && ends_empty a) || followed_empty_last r
   | _ => false
   end.
 Definition c_empty_item_blank_line : node -> bool :=
-  exists_node (fun n => (is_list n && negb (list_tight n) && existsb childless (nch n))
+  exists_node (fun n => (is_list n && negb (list_tight n) && existsb ends_empty (nch n))
                         || followed_empty_last (nch n)).
 
-(* class end_list_after_empty_item (C17): a list whose last item has no children, directly followed by a
+(* class end_list_after_empty_item (C17): a list that ends in an item without children, directly followed by a
    list or a code block (where cm.rs writes the end-of-list comment) *)
 Definition is_list_or_code (n : node) : bool :=
   match nval n with NList _ | CodeBlock _ => true | _ => false end.
 Fixpoint empty_last_then_list_or_code (l : list node) : bool :=
   match l with
   | a :: ((b :: _) as r) =>
-    (is_list a && is_list_or_code b && match rev (nch a) with it :: _ => childless it | [] => false end)
-    || empty_last_then_list_or_code r
+    (is_list a && is_list_or_code b && ends_empty a) || empty_last_then_list_or_code r
   | _ => false
   end.
 Definition c_end_list_after_empty_item : node -> bool :=
   exists_node (fun n => empty_last_then_list_or_code (nch n)).
+
+(* class loose_single_block_list: a loose list with exactly one item that has exactly one block *)
+Definition c_loose_single_block_list : node -> bool :=
+  exists_node (fun n => is_list n && negb (list_tight n) &&
+                        match nch n with
+                        | [it] => match nch it with [_] => true | _ => false end
+                        | _ => false
+                        end).
 
 (* class ol_width_code: an ordered item with content whose marker, padded to ol_width, is followed by five
    or more spaces (digits + 6 <= ol_width) *)
@@ -280,7 +310,8 @@ Definition c_ol_width_code (w : N) : node -> bool :=
 
 (* the predicates above as one list of flags, in this order:
    tilde_text empty_dest_title heading_softbreak nested_link empty_item_blank_line
-   end_list_after_empty_item ol_width_code *)
+   end_list_after_empty_item ol_width_code loose_single_block_list *)
 Definition tree_classes (ol_width : N) (t : node) : list bool :=
   [c_tilde_text t; c_empty_dest_title t; c_heading_softbreak t; c_nested_link t;
-   c_empty_item_blank_line t; c_end_list_after_empty_item t; c_ol_width_code ol_width t].
+   c_empty_item_blank_line t; c_end_list_after_empty_item t; c_ol_width_code ol_width t;
+   c_loose_single_block_list t].
